@@ -213,4 +213,7 @@ def check(ctx) -> Result:
     pr = PR.methods["_recombine_mapped_result"]
     r = [x for x in walk_no_nested(pr.node) if isinstance(x, ast.Return)]
     res.frozen(len(r) == 1 and src(r[0].value) == "SamplingResult(mapped_result, self.input)", "M4-recombine", "SamplingResult._recombine_mapped_result", pr.site(), pr.qualname, "new result from the mapped counts and the same input", "recombination changed", construct=src(r[0]) if r else "")
+    from ..rules import rz_falsy
+    nz = rz_falsy.none_checks(ctx, res, "C17", ())
+    res.floor("Z functions scanned", nz, 3)
     return res
